@@ -119,14 +119,14 @@ func c15Exec(c *fw.Ctx, hlen int, seq []int) (key string, extend, nontrivial boo
 		defer func() { cancel(); sys.BubbleWait() }()
 		mo := &hubModel{n: hlen, deleted: map[string]bool{}}
 		var ls []*hubListener
-		nid := 0
+		nid := map[string]int{} // per mailbox, as the memory store numbers its messages: a/1 and b/1 both exist
 		match := func(l *hubListener, mb string) bool { return l.filter == "" || l.filter == mb }
 		for _, oi := range seq {
 			f := strings.Fields(c15Ops[oi])
 			switch f[0] {
 			case "dispatch":
-				nid++
-				id := fmt.Sprintf("%d", nid)
+				nid[f[1]]++
+				id := fmt.Sprintf("%d", nid[f[1]])
 				hub.Dispatch(event.MessageMetadata{Mailbox: f[1], ID: id, Subject: "s" + id})
 				mo.stored = append(mo.stored, f[1]+"/"+id)
 				for _, l := range ls {
